@@ -338,7 +338,12 @@ fn run_job(j: &Job, rep: &mut Report) {
         }
     } else {
         rep.class(&format!("{}/tree", j.stack.tag()));
-        let targets = boundary_targets(j.len);
+        let mut targets = boundary_targets(j.len);
+        if j.tree_depth >= 3 && matches!(j.stack, Stack::Compress | Stack::EncryptCompress) {
+            // every seek on a compressed stack builds a decompressor (~1 ms): the depth-3 tree keeps the
+            // targets around block edges and the ends only
+            targets.retain(|t| *t <= 1 || *t + 1 >= j.len || (*t % BLOCK <= 1 || *t % BLOCK == BLOCK - 1));
+        }
         let mut alphabet: Vec<S> = Vec::new();
         for t in &targets {
             alphabet.push(S::Start(*t));
